@@ -6,6 +6,8 @@ order from the tags resolved by `L2.Resolve`).  K leg = `l2k.k_leg`: C `enc uper
 C `dec uper` == reference decode, over generated modules, the boundary module and a fixed module of
 CHOICE-order / ENUMERATED / INTEGER / SIZE / extension boundary shapes.  A disagreement is a failing input of C02.
 
+F112 (SIZE(lb..MAX,...)) and F114 (largest character value = 2^b) are repaired: their former regions are compared like
+any other type, their former witnesses are the first values of FSoM0 / FAl9 of the fixed module.
 Regions of confirmed deviations of asn1c from X.691 are skipped narrowly: by type feature (`type_region`) or,
 where the deviation depends on the value, by (type, value) (`value_region`); their witnesses are in
 PROPOSED_FINDINGS (to be merged into KNOWN_FINDINGS.json, then replayed by gfind.replay_witnesses)."""
@@ -56,13 +58,6 @@ def _types_below(t, env, seen=None):
     elif k in ("SEQUENCE OF", "SET OF"):
         yield from _types_below(t["elem"], env, seen)
 
-def _alpha_codes(x):
-    cs = []
-    for a in x["alpha"]:
-        if isinstance(a, tuple): cs += list(range(ord(a[0]), ord(a[1]) + 1))
-        else: cs.append(ord(a))
-    return sorted(set(cs))
-
 def _bare_string_alias(d, env):
     """a type assignment that only references an unconstrained known-multiplier string type: `B ::= A` with
     `A ::= IA5String`, or `T ::= GeneralizedTime` (the time types are references to skeleton types themselves)"""
@@ -89,14 +84,8 @@ def type_region(t, env, tagdefault=None):
         if k == "INTEGER":
             c = x.get("cons")
             if c and c["ext"] and c["lo"] is None: return "F94"      # (MIN..ub,...) loses its extension bit (C09)
-        sz = x.get("size")
-        if sz and sz["ext"] and sz["hi"] is None and k != "UTF8String": return "F112"   # SIZE(lb..MAX,...)
-        if k in KM_KINDS and x.get("alpha"):
-            cs = _alpha_codes(x)
-            # a single-character alphabet (0 bits per character, former F71 region) is compared like any other:
-            # asn1c tests `unit_bits > 0 && ub <= 2^unit_bits`, so F114 needs at least two characters
-            b = (len(cs) - 1).bit_length()
-            if b > 0 and cs[-1] == (1 << b): return "F114"           # ub == 2^b: off-by-one in X.691 30.5.4 test
+        # SIZE(lb..MAX,...) (former F112 region) and permitted alphabets whose largest character value is exactly
+        # 2^b (former F114 region) are compared like any other type
     return None
 
 def value_region(t, v, env, tagdefault=None):
@@ -241,12 +230,26 @@ def fixed_module(rng, quick=True):
         add(f"FOs{i}", T("OCTET STRING", size=c), [rb(n) for n in ls])
         add(f"FIa{i}", T("IA5String", size=c), ["".join(chr(rng.randrange(0x20, 0x7f)) for _ in range(n)) for n in ls if genmod.in_cons(c, n)])
         add(f"FSo{i}", T("SEQUENCE OF", elem=T("BOOLEAN"), size=c), [[bool(rng.getrandbits(1)) for _ in range(n)] for n in ls])
-        add(f"FSt{i}", T("SET OF", elem=T("INTEGER", cons=cons(0, 255)), size=c), [[rng.randrange(256) for _ in range(n)] for n in ls if n <= 200])   # > 200: F47
+        add(f"FSt{i}", T("SET OF", elem=T("INTEGER", cons=cons(0, 255)), size=c), [[rng.randrange(256) for _ in range(n)] for n in ls])
     for i, (lo, hi, ext) in enumerate([(0, 0, False), (1, 1, False), (15, 15, False), (16, 16, False), (17, 17, False), (24, 24, False), (0, 16, False), (0, 17, False),
                                         (8, 8, True), (1, 16, True), (0, 65535, False), (0, 65536, False)]):
         c = cons(lo, hi, ext)
         ls = sorted({lo, hi if hi < 400 else lo + 130, min(lo + 1, hi), max(min(hi, 300) - 1, lo)})
         add(f"FBs{i}", T("BIT STRING", size=c), [bits(n) for n in ls if n > 0 or lo == 0])
+    # SIZE(lb..MAX,...): a semi-constrained root, every count >= lb is in the root (extension bit 0), a count below
+    # lb is not (bit 1); the count itself is an unconstrained length either way (former F112 region, witness first)
+    for i, (lo, ext) in enumerate([(2, True), (0, True), (1, True), (130, True), (2, False)]):
+        c = cons(lo, None, ext)
+        ls = sorted({lo, lo + 1, lo + 5, 127, 128, 300} | ({max(lo - 1, 0), 0} if ext else set()))
+        inr = [n for n in ls if n >= lo]
+        add(f"FSoM{i}", T("SEQUENCE OF", elem=T("BOOLEAN"), size=c), [[True] * n for n in ([2] if i == 0 else [])] + [[bool(rng.getrandbits(1)) for _ in range(n)] for n in ls])
+        add(f"FStM{i}", T("SET OF", elem=T("INTEGER", cons=cons(0, 255)), size=c), [[rng.randrange(256) for _ in range(n)] for n in ls])
+        add(f"FOsM{i}", T("OCTET STRING", size=c), [rb(n) for n in ls])
+        add(f"FIaM{i}", T("IA5String", size=c), ["".join(chr(rng.randrange(0x20, 0x7f)) for _ in range(n)) for n in inr])      # below lb: F113
+        add(f"FBmM{i}", T("BMPString", size=c), ["".join(rng.choice("aé€") for _ in range(n)) for n in ls[:4]])
+        add(f"FBsM{i}", T("BIT STRING", size=c), [bits(n) for n in inr if n > 0 or lo == 0])
+    add("FOsH", T("OCTET STRING", size=cons(2, 70000, True)), [rb(n) for n in (1, 2, 3, 300)])        # ub >= 64K: no constrained length, but a root
+    add("FSoH", T("SEQUENCE OF", elem=T("BOOLEAN"), size=cons(2, 70000, True)), [[True] * n for n in (1, 2, 3, 300)])
     add("FNum", T("NumericString", size=cons(0, 5)), ["", "0", " 9", "12345"])
     add("FPrt", T("SEQUENCE", comps=[{"id": "p", "type": T("PrintableString", tag=(C, 0, ""))}]), [{"p": ""}, {"p": "Az 09'()+,-./:=?"}])
     add("FAl1", T("IA5String", alpha=[("A", "Z")]), ["", "AZ", "HELLO"])
@@ -258,6 +261,13 @@ def fixed_module(rng, quick=True):
     add("FAl6", T("IA5String", alpha=["a"]), ["", "a", "aaaaa", "a" * 130])
     add("FAl7", T("PrintableString", alpha=["Z"], size=cons(0, 5)), ["", "Z", "ZZZZZ"])
     add("FAl8", T("SEQUENCE OF", elem=T("IA5String", alpha=["q"], size=cons(2, 2))), [[], ["qq", "qq", "qq"]])
+    # largest character value exactly 2^b: 2^b > 2^b - 1, so the characters go by index (X.691 30.5.4; former F114 region, witness first)
+    add("FAl9", T("IA5String", alpha=[(" ", "@")]), [" @", "", "@", "@@ 0?"])                     # N = 33, b = 6, ub = 64
+    add("FAl10", T("IA5String", alpha=[("\x01", "\x10")]), ["", "\x01\x10", "\x10\x0f\x02"])         # N = 16, b = 4, ub = 16
+    add("FAl11", T("VisibleString", alpha=[(" ", "9"), "@"], size=cons(0, 6)), ["", "@", " 9@", "@@@@@@"])   # N = 27, b = 5, ub = 64: by index anyway
+    add("FAl12", T("IA5String", alpha=[("\x10", "9"), "@"]), ["", "@", "\x109@", "@0@"])         # N = 43, b = 6, ub = 64 = 2^6, mapped through the generated tables
+    add("FAl13", T("IA5String", alpha=[("\x00", "\x03"), "\x08"], size=cons(1, 3)), ["\x08", "\x00\x08\x03"])   # N = 5, b = 3, ub = 8
+    add("FAl14", T("BMPString", alpha=[("\x01", "\x10")]), ["", "\x01\x10"])                   # 16-bit characters, N = 16, b = 4, ub = 16
     add("FBmp", T("BMPString", size=cons(0, 3)), ["", "a", "aé€"])
     add("FUni", T("UniversalString", size=cons(1, 2)), ["a", "a\U0010ffff"])
     add("FU8", T("UTF8String", size=cons(1, 2)), ["a", "é€"])            # SIZE not PER-visible
@@ -278,7 +288,7 @@ def fixed_module(rng, quick=True):
 def _w(fid, what, module, type_, op, expect, matcher, x691):
     return {"id": fid, "property": "C02", "properties": ["C02"], "status": "known", "what": what,
             "witness": {"module": module, "type": type_, "op": op, "expect": expect, "x691": x691},
-            "matcher": matcher, "lean_reference": "Asn1c.Props.C02Uper.ref_%s_witness" % fid if fid in ("F111", "F112", "F113", "F114", "F28") else None}
+            "matcher": matcher, "lean_reference": "Asn1c.Props.C02Uper.ref_%s_witness" % fid if fid in ("F111", "F113", "F28") else None}
 
 PROPOSED_FINDINGS = [
     _w("F111", "UPER: a type assignment that merely references an unconstrained known-multiplier string type gets no PER constraints "
@@ -289,23 +299,12 @@ PROPOSED_FINDINGS = [
                "correctly, so one abstract type has two encodings",
        "M DEFINITIONS ::= BEGIN T ::= GeneralizedTime END", "T", "enc uper (os 31393730303130313030303030305a)", r"^ok 0f31393730303130313030303030305a$",
        "syntax == uper and the type is, or references, a type assignment that is a bare reference to an unconstrained known-multiplier string / time type", "ok 0f62e5bb060c583160c183060c2d00"),
-    _w("F112", "UPER: an extensible size constraint without upper bound, SIZE(lb..MAX,...): SET_OF/SEQUENCE_OF_encode_uper compare the count "
-               "with upper_bound = 0/-1 and set the extension bit for EVERY value inside the root (2 elements of SEQUENCE (SIZE(2..MAX,...)) OF => 81.. "
-               "instead of 01..), OCTET_STRING_encode_uper never sets it for a value outside the root (1 octet of OCTET STRING (SIZE(2..MAX,...)) => "
-               "00 b0 80 instead of 80 b0 80); X.691 20.4/17.3: the bit tells whether the count is in the root",
-       "M DEFINITIONS ::= BEGIN T ::= SEQUENCE (SIZE(2..MAX,...)) OF BOOLEAN END", "T", "enc uper (list (bool t) (bool t))", r"^ok 8160$",
-       "syntax == uper and the type contains SIZE(lb..MAX,...) on a string / SEQUENCE OF / SET OF", "ok 0160"),
     _w("F113", "UPER: a known-multiplier character string whose extensible SIZE is exceeded is written with 8/16/32-bit characters "
                "(canonical_unit_bits) instead of the character width of the unconstrained type (IA5String/VisibleString/PrintableString 7 bits, "
                "NumericString 4 bits): X.691 30.4 'as if there was no effective size constraint ... permitted alphabet = all characters of the "
                "unconstrained type'; the decoder expects the same, so standard encodings are not understood (81 e1 c5 8c => RC_WMORE)",
        "M DEFINITIONS ::= BEGIN T ::= IA5String (SIZE(1..2,...)) END", "T", "enc uper (os 616263)", r"^ok 81b0b13180$",
        "syntax == uper and a value of IA5String/VisibleString/PrintableString/NumericString with extensible SIZE whose length is outside the root", "ok 81e1c58c"),
-    _w("F114", "UPER: OCTET_STRING_per_put/get_characters test `ub <= 2 << (unit_bits-1)` (= 2^b) where X.691 30.5.4 says ub <= 2^b - 1: for a "
-               "permitted alphabet whose largest character value is exactly 2^b (FROM(\" \"..\"@\"): N = 33, b = 6, ub = 64) the characters are "
-               "written by value in b bits, so the largest character is truncated to 0 ('@' => 000000) and the round trip returns NUL",
-       "M DEFINITIONS ::= BEGIN T ::= IA5String (FROM(\" \"..\"@\")) END", "T", "enc uper (os 2040)", r"^ok 028000$",
-       "syntax == uper and a FROM alphabet of N characters whose largest value equals 2^ceil(log2 N)", "ok 020200"),
     _w("F28", "UPER CHOICE: the generated to_canonical / from_canonical tables are used swapped (the encoder indexes from_canonical with the "
               "presence index): CHOICE { a [2] NULL, b [0] NULL, c [1] NULL } encodes a, b, c as 1, 2, 0 instead of the canonical indexes 2, 0, 1 "
               "(X.691 23.2, X.680 8.6); invisible when the permutation is an involution; encoder and decoder agree with each other",
